@@ -65,16 +65,19 @@ Definition bellman_q (m : mdp) (v : vec) (s a : nat) : Q := q_of m v s a.
 Definition ps_inv (m : mdp) (st : ps_state) : Prop :=
   length (ps_v st) = nS m /\ shape (nS m) (nA m) (ps_q st) /\
   (forall s, (s < nS m)%nat -> nthq (ps_v st) s == maxl (row (ps_q st) s)) /\
+  (forall k, queued (ps_queue st) k = true -> (fst k < nS m)%nat /\ (snd k < nA m)%nat) /\
   (forall s a, In (s, a) (ps_done st) ->
      queued (ps_queue st) (s, a) = true \/ qget (ps_q st) s a == bellman_q m (ps_v st) s a).
-(* checker on dumped implementation state: [done] = pairs the driver knows were backed up *)
-Definition ps_invb (m : mdp) (q : qtab) (v : vec) (qkeys : list (nat * nat)) (done : list (nat * nat)) : bool :=
+(* checkers on dumped implementation state: [done] = pairs the driver knows were backed up;
+   [e] = tolerance absorbing the floating rounding of one backup (0 in the exact regime) *)
+Definition qcloseb (e x y : Q) : bool := Qle_bool (x - y) e && Qle_bool (y - x) e.
+Definition ps_invb (m : mdp) (e : Q) (q : qtab) (v : vec) (qkeys : list (nat * nat)) (done : list (nat * nat)) : bool :=
   forallb (fun s => Qeq_bool (nthq v s) (maxl (row q s))) (seq 0 (nS m)) &&
   forallb (fun k => existsb (pair_eqb k) qkeys ||
-                    Qeq_bool (qget q (fst k) (snd k)) (bellman_q m v (fst k) (snd k))) done.
-Definition ps_bellmanb (m : mdp) (q : qtab) : bool :=
+                    qcloseb e (qget q (fst k) (snd k)) (bellman_q m v (fst k) (snd k))) done.
+Definition ps_bellmanb (m : mdp) (e : Q) (q : qtab) : bool :=
   let v := map maxl q in
-  forallb (fun k => Qeq_bool (qget q (fst k) (snd k)) (bellman_q m v (fst k) (snd k)))
+  forallb (fun k => qcloseb e (qget q (fst k) (snd k)) (bellman_q m v (fst k) (snd k)))
           (list_prod (seq 0 (nS m)) (seq 0 (nA m))).
 Inductive ps_op := PsStep (s a : nat) | PsBatch (n : nat) (choices : list (nat * nat)).
 Definition ps_op_ok (m : mdp) (o : ps_op) : Prop :=
@@ -135,3 +138,24 @@ Definition tstep_inrange (p : tparams) (t : tstep) : Prop :=
   | TCtrl _ (_, _, s1, _, _) => (s1 < tp_nS p)%nat
   | TEval _ (_, _, s1, _, _, _, _) => (s1 < tp_nS p)%nat
   end.
+
+(* ---------- DynaQ histories ---------- *)
+Inductive dyna_op := DStep (e : nat * nat * nat * Q) | DBatch (draws : list (nat * nat * Q)).
+Definition dyna_apply (alpha g : Q) (r : option (qtab * list (nat * nat))) (o : dyna_op)
+  : option (qtab * list (nat * nat)) :=
+  match r with
+  | None => None
+  | Some st => match o with DStep e => Some (dyna_step alpha g st e) | DBatch d => dyna_batch alpha g st d end
+  end.
+Definition dyna_op_ok (rmin rmax : Q) (o : dyna_op) : Prop :=
+  match o with
+  | DStep (_, _, _, r) => rmin <= r /\ r <= rmax
+  | DBatch d => Forall (fun x : nat * nat * Q => rmin <= snd x /\ snd x <= rmax) d
+  end.
+
+(* ---------- fixed points ---------- *)
+(* Q is the optimal Q-function of m: Q(s,a) = R(s,a) + gamma * sum_s' T(s,a,s') max_a' Q(s',a') *)
+Definition is_qstar (m : mdp) (q : qtab) : Prop :=
+  forall s a, (s < nS m)%nat -> (a < nA m)%nat -> qget q s a == q_of m (map maxl q) s a.
+(* (s,a) moves deterministically to s1 *)
+Definition det_at (m : mdp) (s a s1 : nat) : Prop := forall v, dot (trow m s a) v == nthq v s1.
